@@ -163,7 +163,7 @@ impl Property for C03 {
         }
     }
     fn required_labels(&self, _tier: Tier) -> Vec<&'static str> {
-        vec!["nontrivial", "ancestors>30", "parents>30", "records>255", "kind-with-zero-records", "term-linked-to-all-records", "rec-without-terms", "setter-grid", "records>32767", "records=65535", "depth>255"]
+        vec!["nontrivial", "ancestors>30", "parents>30", "records>255", "kind-with-zero-records", "term-linked-to-all-records", "rec-without-terms", "setter-grid", "records>32767", "records=65535", "depth>255", "bulk>65535-terms"]
     }
     fn run_generated(&self, tier: Tier, seed: u64, n: u64, stats: &mut Stats) -> Option<(Value, Failure)> {
         let max = if tier == Tier::Quick { 44 } else { 90 };
@@ -178,6 +178,17 @@ impl Property for C03 {
             let v: (u32, u32, u32, PathSel) = serde_json::from_value(l.clone()).map_err(|e| e.to_string())?;
             stats.cases += 1;
             return Ok(check_large(v.0, v.1, v.2, v.3, stats));
+        }
+        if let Some(b) = case.get("bulk") {
+            // more than 65 535 terms with records of every kind (see `bulk_facts`), through the ordinary check
+            let v: (u32, u32, u32, PathSel) = serde_json::from_value(b.clone()).map_err(|e| e.to_string())?;
+            stats.cases += 1;
+            let c = OntCase { facts: bulk_facts(v.0, v.1, v.2), path: v.3, noise: Default::default() };
+            let r = check(&c, stats);
+            if r.is_ok() {
+                stats.label("bulk>65535-terms");
+            }
+            return Ok(r);
         }
         if let Some(b) = case.get("deep") {
             let v: (u32, u32, u32, PathSel) = serde_json::from_value(b.clone()).map_err(|e| e.to_string())?;
@@ -211,6 +222,7 @@ impl Property for C03 {
         let mut out: Vec<Value> = plans.into_iter().map(|p| json!({"large": p})).collect();
         let mult = [7919u32, 104_729][(seed % 2) as usize];
         out.push(json!({"deep": (300u32, mult, 25u32, PathSel::Builder)}));
+        out.push(json!({"bulk": (65_800u32, mult, 50u32, PathSel::Builder)}));
         if tier == Tier::Thorough {
             out.push(json!({"deep": (1100u32, mult, 60u32, PathSel::Bin(3))}));
         }
